@@ -273,6 +273,8 @@ func init() {
 		checkJSONNumber(r, prog, a, "c02")
 		checkCoercionErrors(r, prog, a, "c02")
 		checkElementTransparency(r, prog, a, "c02")
+		r.importing = "C09"
+		checkComparatorCalls(r, prog, a, a.EvalSet)
 		r.importing = "C05"
 		checkValueLookup(r, prog, a, "c05")
 		checkDispositionTable(r, prog, "c05", false, true)
